@@ -199,6 +199,10 @@ func (impl Implementation) Dtgsja(jobU, jobV, jobQ lapack.GSVDJob, m, p, n, k, l
 		panic(pLT0)
 	case n < 0:
 		panic(nLT0)
+	case k < 0:
+		panic(kLT0)
+	case l < 0:
+		panic(lLT0)
 
 	case lda < max(1, n):
 		panic(badLdA)
